@@ -163,6 +163,15 @@ class VectorContainer:
                 f"'{name}' is already defined in the current object"
             )
 
+        # Variables are stored under '_' + `name`: refuse a name whose storage
+        # key is taken already (e.g. 'attributes' and 'strict', which would
+        # overwrite the object's own list of attributes / `strict` setting)
+        if '_' + name in self.__dict__:
+            raise DuplicateNameError(
+                f"'{name}' cannot be used as a variable name: "
+                f"'_{name}' is already defined in the current object"
+            )
+
         # Cast to a 1D array
         if isinstance(value, Sequence) and not isinstance(value, str):
             value_as_array = np.array(value).flatten()
